@@ -10,9 +10,12 @@ package main
 //              (4 id) REQ | (5 type) a packet of an unknown type
 //   merge      ReceiveOpt.Merge
 //   opts       (metaonly filter): further fields of ReceiveOpt, each () = nil or (default (path ...)):
-//              the callback answers [default] for every path except the listed ones, where it
-//              answers the opposite.  metaonly = ReceiveOpt.MetadataOnly (true: transfer the entry
-//              in full), filter = ReceiveOpt.Filter (false: the disk writer skips the change).
+//              metaonly = ReceiveOpt.MetadataOnly: () = nil or (default (path ...)): the callback answers
+//              [default] (true: transfer the entry in full) for every path except the listed ones,
+//              where it answers the opposite;
+//              filter = ReceiveOpt.Filter: () = nil or ((path ...) uidadd gidadd): the callback answers
+//              false (the disk writer skips the change) for the listed paths and everything below
+//              them, and adds the two numbers to Uid / Gid of the stat copy it is handed otherwise.
 // output: (class t0 destreal before after)
 //   class      0 Receive returned nil | 1 it returned an error | 2 it did not return although the
 //              sender had closed the stream (it is then cancelled) | 3 the receiver process died
@@ -230,11 +233,32 @@ func c03PathPred(x Sx) fsutil.FilterFunc {
 	return func(p string, _ *types.Stat) bool { return def != set[p] }
 }
 
+func c03Filter(x Sx) fsutil.FilterFunc {
+	if len(x.L) != 3 {
+		return nil
+	}
+	var rej []string
+	for _, p := range x.L[0].L {
+		rej = append(rej, p.Str())
+	}
+	ua, ga := uint32(x.L[1].U64()), uint32(x.L[2].U64())
+	return func(p string, st *types.Stat) bool {
+		for _, q := range rej {
+			if p == q || strings.HasPrefix(p, q+"/") {
+				return false
+			}
+		}
+		st.Uid += ua
+		st.Gid += ga
+		return true
+	}
+}
+
 func c03RecvOpt(in Sx) fsutil.ReceiveOpt {
 	opt := fsutil.ReceiveOpt{Merge: in.L[3].IsTrue()}
 	if len(in.L) > 4 && len(in.L[4].L) == 2 {
 		opt.MetadataOnly = c03PathPred(in.L[4].L[0])
-		opt.Filter = c03PathPred(in.L[4].L[1])
+		opt.Filter = c03Filter(in.L[4].L[1])
 	}
 	return opt
 }
